@@ -599,24 +599,24 @@ func (r *WordRenderer) renderTable(node *extast.Table) (ast.WalkStatus, error) {
 	var tableData [][]string
 	// 列对齐方式属于整个表格（分隔行），没有数据行的表格也有对齐方式
 	alignments := node.Alignments
-	var emphases [][]int
+	// 每个单元格的节点：表格建好后用它把单元格内容逐段写成带格式的Run
+	var cellNodes [][]*extast.TableCell
 
 	// 遍历表头
 	for child := node.FirstChild(); child != nil; child = child.NextSibling() {
 		if row, ok := child.(*extast.TableHeader); ok {
 			var rowData []string
-			var rowEmphasis []int
+			var rowNodes []*extast.TableCell
 			// 遍历表头单元格
 			for cellChild := row.FirstChild(); cellChild != nil; cellChild = cellChild.NextSibling() {
 				if cell, ok := cellChild.(*extast.TableCell); ok {
 					cellText := r.extractTextContent(cell)
 					rowData = append(rowData, cellText)
-					//表头默认粗体
-					rowEmphasis = append(rowEmphasis, 2)
+					rowNodes = append(rowNodes, cell)
 				}
 			}
 			tableData = append(tableData, rowData)
-			emphases = append(emphases, rowEmphasis)
+			cellNodes = append(cellNodes, rowNodes)
 		}
 	}
 
@@ -624,7 +624,7 @@ func (r *WordRenderer) renderTable(node *extast.Table) (ast.WalkStatus, error) {
 	for child := node.FirstChild(); child != nil; child = child.NextSibling() {
 		if row, ok := child.(*extast.TableRow); ok {
 			var rowData []string
-			var rowEmphasis []int
+			var rowNodes []*extast.TableCell
 			if len(alignments) == 0 {
 				// 从第一行获取对齐方式
 				alignments = row.Alignments
@@ -635,12 +635,11 @@ func (r *WordRenderer) renderTable(node *extast.Table) (ast.WalkStatus, error) {
 				if cell, ok := cellChild.(*extast.TableCell); ok {
 					cellText := r.extractTextContent(cell)
 					rowData = append(rowData, cellText)
-					emphasis := extractCellEmphasis(cell)
-					rowEmphasis = append(rowEmphasis, emphasis)
+					rowNodes = append(rowNodes, cell)
 				}
 			}
 			tableData = append(tableData, rowData)
-			emphases = append(emphases, rowEmphasis)
+			cellNodes = append(cellNodes, rowNodes)
 		}
 	}
 
@@ -659,11 +658,10 @@ func (r *WordRenderer) renderTable(node *extast.Table) (ast.WalkStatus, error) {
 
 	// 创建表格配置
 	config := &document.TableConfig{
-		Rows:     len(tableData),
-		Cols:     cols,
-		Width:    9000, // 默认宽度（磅）
-		Data:     tableData,
-		Emphases: emphases,
+		Rows:  len(tableData),
+		Cols:  cols,
+		Width: 9000, // 默认宽度（磅）
+		Data:  tableData,
 	}
 
 	// 添加表格到文档
@@ -672,6 +670,21 @@ func (r *WordRenderer) renderTable(node *extast.Table) (ast.WalkStatus, error) {
 		r.opts.ErrorCallback(NewConversionError("AddTable", err.Error(), 0, 0, err))
 	}
 	if table != nil {
+		// 单元格内容逐段写入：每个叶子文本一个Run，带上它自己的粗体、斜体、删除线、代码格式
+		for rowIdx, rowNodes := range cellNodes {
+			for colIdx, cell := range rowNodes {
+				content := &document.Paragraph{}
+				base := inlineFormat{}
+				if _, isHeader := cell.Parent().(*extast.TableHeader); isHeader {
+					base.bold = true // 表头默认粗体
+				}
+				r.renderInlines(cell, content, base)
+				if len(content.Runs) > 0 {
+					table.Rows[rowIdx].Cells[colIdx].Paragraphs[0].Runs = content.Runs
+				}
+			}
+		}
+
 		// 设置表头样式（如果有的话）
 		if len(tableData) > 0 {
 			// 第一行设为表头样式
@@ -710,27 +723,6 @@ func (r *WordRenderer) renderTable(node *extast.Table) (ast.WalkStatus, error) {
 	}
 
 	return ast.WalkSkipChildren, nil
-}
-
-// 处理单元格样式
-func extractCellEmphasis(cell *extast.TableCell) int {
-	format := 0 // 0表示无格式
-	// 遍历单元格内容
-	ast.Walk(cell, func(n ast.Node, entering bool) (ast.WalkStatus, error) {
-		if !entering {
-			return ast.WalkContinue, nil
-		}
-
-		switch node := n.(type) {
-		case *ast.Emphasis:
-			// 处理强调文本（粗体或斜体）
-			format = node.Level
-		}
-
-		return ast.WalkContinue, nil
-	})
-
-	return format
 }
 
 // renderTableAsText 在EnableTables关闭时渲染表格：每一行（含表头）成为一个普通段落，
